@@ -98,15 +98,17 @@ NsLm(q)      == IF q.ns = "ipfs" THEN "none" ELSE IF q.name = "lm" THEN "nslm" E
 
 (* responses *)
 Err(st) == [st |-> st, clean |-> TRUE, loc |-> FALSE, et |-> NoEt, cc |-> "none", lm |-> "none", roots |-> <<>>,
-            ct |-> "err", cdt |-> "na", cdn |-> "", cl |-> FALSE, body |-> "err", rep |-> ""]
+            ct |-> "err", cdt |-> "na", cdn |-> "", cl |-> FALSE, body |-> "err", rep |-> "", v |-> "none"]
 Redirect == [Err(301) EXCEPT !.loc = TRUE]
 HasCL(q) == Fmt(q) # "" /\ q.fmtq # Fmt(q)             \* format negotiated through Accept only
-Ok(q, et, cc, lm, ct, cdt, cdn, rep) ==
+\* v names the variant of the representation; rep = v : identity
+Ok(q, et, cc, lm, ct, cdt, cdn, v, id) ==
   [st |-> 200, clean |-> TRUE, loc |-> FALSE, et |-> et, cc |-> cc, lm |-> lm, roots |-> Roots(q), ct |-> ct,
-   cdt |-> cdt, cdn |-> cdn, cl |-> HasCL(q), body |-> IF q.meth = "HEAD" THEN "na" ELSE "full", rep |-> rep]
+   cdt |-> cdt, cdn |-> cdn, cl |-> HasCL(q), body |-> IF q.meth = "HEAD" THEN "na" ELSE "full",
+   rep |-> v \o ":" \o id, v |-> v]
 NotModified(et, cc) ==
   [st |-> 304, clean |-> TRUE, loc |-> FALSE, et |-> et, cc |-> cc, lm |-> "none", roots |-> <<>>, ct |-> "none",
-   cdt |-> "na", cdn |-> "", cl |-> FALSE, body |-> "empty", rep |-> ""]
+   cdt |-> "na", cdn |-> "", cl |-> FALSE, body |-> "empty", rep |-> "", v |-> "none"]
 
 ---------------------------------------------------------------------------
 (* R4/R11  the unconditional response of each format *)
@@ -117,9 +119,9 @@ BytesCdn(q) == IF q.fname = "" THEN "" ELSE "fname"
 
 \* plain bytes of a UnixFS file / raw block / a directory's index.html (ETag = CID of the file or DIRECTORY)
 Bytes(q) == Ok(q, EtCid(T(q)), CCContent(q), IF q.kind = "filem" THEN "mtime" ELSE NsLm(q),
-               BytesCT(q), BytesCdt(q), BytesCdn(q), "bytes:" \o T(q))
-DirListing(q) == Ok(q, EtDir(T(q)), CCDir(q), "none", "html", "none", "", "dirlist:" \o T(q) \o ":" \o UrlId(q))
-DagHtml(q)    == Ok(q, EtDag(T(q)), "none", "none", "html", "none", "", "daghtml:" \o T(q) \o ":" \o UrlId(q))
+               BytesCT(q), BytesCdt(q), BytesCdn(q), "bytes", T(q))
+DirListing(q) == Ok(q, EtDir(T(q)), CCDir(q), "none", "html", "none", "", "dirlist", T(q) \o ":" \o UrlId(q))
+DagHtml(q)    == Ok(q, EtDag(T(q)), "none", "none", "html", "none", "", "daghtml", T(q) \o ":" \o UrlId(q))
 
 CodecExt(rct) == IF rct \in {"json", "dag-json"} THEN "json" ELSE "cbor"
 \* block served under content type rct (as-is: variant "codec", converted: "conv")
@@ -127,7 +129,7 @@ CodecResp(q, rct, variant) ==
   Ok(q, EtFmt(T(q), rct), CCContent(q), NsLm(q), rct,
      IF q.dl THEN "attachment" ELSE IF CodecExt(rct) = "json" THEN "inline" ELSE "attachment",
      IF q.fname # "" THEN "fname" ELSE "cid." \o CodecExt(rct),
-     variant \o ":" \o T(q) \o ":" \o rct)
+     variant, T(q) \o ":" \o rct)
 
 \* default format and the plain json / cbor formats (which leave UnixFS content alone)
 Defaults(q, f) ==
@@ -148,10 +150,10 @@ DagFmt(q, f) == IF Codec(q.kind) = f THEN CodecResp(q, f, "codec")
                 ELSE IF q.conv THEN CodecResp(q, f, "conv") ELSE Err(406)
 
 RawBlock(q) == Ok(q, EtFmt(T(q), "raw"), CCContent(q), NsLm(q), "raw", "attachment",
-                  IF q.fname # "" THEN "fname" ELSE "cid.bin", "block:" \o T(q))
+                  IF q.fname # "" THEN "fname" ELSE "cid.bin", "block", T(q))
 Tar(q) == IF q.kind \in UnixKinds
           THEN Ok(q, EtFmt(T(q), "x-tar"), CCContent(q), NsLm(q), "tar", "attachment",
-                  IF q.fname # "" THEN "fname" ELSE "cid.tar", "tar:" \o T(q))
+                  IF q.fname # "" THEN "fname" ELSE "cid.tar", "tar", T(q))
           ELSE Err(500)
 
 \* CAR (IPIP-402/412): URL parameters override Accept parameters; defaults scope=all order=dfs dups=n
@@ -166,11 +168,11 @@ CarKey(q)   == PathId(q) \o "|" \o CarScope(q) \o "|" \o CarOrder(q) \o "|" \o C
 Car(q) == IF CarBad(q) THEN Err(400)
           ELSE Ok(q, EtCar(Roots(q)[1], CarKey(q)), CCContent(q), "none",
                   "car:" \o CarOrder(q) \o ":" \o CarDups(q), "attachment",
-                  IF q.fname # "" THEN "fname" ELSE "car", "car:" \o CarKey(q))
+                  IF q.fname # "" THEN "fname" ELSE "car", "car", CarKey(q))
 
 \* signed IPNS record (trustless): own validator, max-age from the record's TTL
 Record(q) == IF q.ns # "ipns" \/ q.addr # "direct" \/ q.name # "key" THEN Err(400)
-             ELSE [Ok(q, EtRec, "ttl", "none", "rec", "attachment", IF q.fname # "" THEN "fname" ELSE "rec", "rec")
+             ELSE [Ok(q, EtRec, "ttl", "none", "rec", "attachment", IF q.fname # "" THEN "fname" ELSE "rec", "rec", "record")
                    EXCEPT !.roots = <<>>]
 
 \* the response to q if it carried no conditional headers
@@ -223,7 +225,11 @@ FirstMatch(cands, tags) ==
   LET idx == {i \in DOMAIN cands : Opaque(cands[i]) \in tags} IN
   IF idx = {} THEN 0 ELSE CHOOSE i \in idx : \A j \in idx : i <= j
 
-ImsHits(q, u) == q.inm = "" /\ u.lm # "none" /\ (q.ims = "newer" \/ (q.ims = "equal" /\ u.lm \in {"mtime", "nslm"}))
+\* If-Modified-Since is ignored when If-None-Match is present (RFC 9110, 13.2.2) and is evaluated only for the
+\* byte-addressable responses (files, raw blocks, blocks served as-is), not for streamed archives and
+\* converted / generated documents
+ImsHits(q, u) == /\ q.inm = "" /\ u.lm # "none" /\ u.v \in {"bytes", "block", "codec"}
+                 /\ (q.ims = "newer" \/ (q.ims = "equal" /\ u.lm \in {"mtime", "nslm"}))
 
 \* the response to q when its If-None-Match denotes `tags` (or "*" if star)
 Respond(q, tags, star, cands) ==
